@@ -309,6 +309,47 @@ class HostileInjector(Oracle):
         ep.pump()
         return True
 
+    def cid_dance(self, ep, dgram):
+        """A key-holding peer issues connection IDs out of order, the local application rotates through them
+        (change_connection_id() is public API), then the peer repeats one of its frames with a Retire Prior To
+        that covers everything the endpoint still holds."""
+        ch = self.ch
+        sender = ep.peer
+        keys = self.forger.keys(sender, "1rtt") if sender.conn is not None else None
+        if keys is None or not getattr(ep.conn, "_handshake_complete", False):
+            return False
+        base = 20 + ch.choose(10)
+        a, b = base + 3 + ch.choose(6), base
+        frames = {}
+        for seq in (a, b):
+            frames[seq] = (_bytes(ch, 8), _bytes(ch, 16))
+        self.count("cid-dance")
+        self.sim.k.trace("hostile", ep.name, "cid-dance", a)
+
+        def send(payload):
+            pn = self.forger.next_pn(sender, "app", 1)
+            pkt = self.forger.build(sender, "1rtt", payload, pn=pn, pn_len=2, keys=keys)
+            d = self.forger.inject(ep, pkt, src=dgram.src, tag="hostile")
+            ep.api("receive_datagram", d.data, d.src, ep.now())
+            ep.pump()
+            return not (ep.terminated or ep.broken)
+
+        try:
+            order = (a, b) if ch.choose(2) else (b, a)
+            for seq in order:
+                if not send(wf.encode_new_connection_id(seq, 0, *frames[seq])):
+                    return True
+            for _ in range(1 + ch.choose(3)):
+                ep.api("change_connection_id")
+                ep.pump()
+                if ep.terminated or ep.broken:
+                    return True
+            rep = (a, b)[ch.choose(2)]
+            send(wf.encode_new_connection_id(rep, (rep, a, b)[ch.choose(3)] if rep >= b else rep, *frames[rep]))
+        except EndpointBroken:
+            pass
+        return True
+
     def on_datagram_delivered(self, ep, dgram, copy_index):
         if self.busy or ep.conn is None or ep.terminated or ep.broken:
             return
@@ -317,6 +358,14 @@ class HostileInjector(Oracle):
         if self.sim.k.now >= self.sim.cfg["t_fair"] or not self.ch.chance(self.rate):
             self.last_genuine = dgram.data
             return
+        if self.sim.profile.get("cid_dance_p") and self.ch.chance(self.sim.profile["cid_dance_p"]):
+            self.busy = True
+            try:
+                if self.cid_dance(ep, dgram):
+                    return
+            finally:
+                self.busy = False
+                self.last_genuine = dgram.data
         if self.sim.profile.get("gap_flood_p") and self.ch.chance(self.sim.profile["gap_flood_p"]):
             self.busy = True
             try:
